@@ -43,13 +43,11 @@ var c14Triage = map[string]string{
 	`K2:meta.RpcOutput.clone/def.(cloneable)`:                               rCloneDefs,
 	`K2:meta.resolver.cloneDefs/d.(cloneable)`:                              rCloneDefs,
 	`K2:meta.resolver.expandAugment/orig.(cloneable)`:                       rCloneDefs,
-	`K2:meta.Builder.SetInverted/o.(*Pattern)`:                              rGrammar + " (modifier occurs only inside pattern)",
 	`K2:meta.Module.setParent/p.(*Module)`:                                  rSubmodule,
 	`K2:meta.RootModule/candidate.(*Module)`:                                rSchema + ": the root of every Parent() chain of a definition attached to a module is its *Module",
 	`K2:meta.SchemaPath/m.(Identifiable)`:                                   rSchema + ": every meta.Meta on a Parent() chain is a Definition, hence Identifiable",
 	`K2:meta.SchemaPathNoModule/m.(Identifiable)`:                           rSchema + ": as SchemaPath",
 	`K2:meta.compiler.compile/o.(Meta)`:                                     "inside `if x, ok := o.(HasConfig)`: every HasConfig implementer is a Meta (closed set of meta types; HasConfig embeds nothing sealed, so the engine cannot see it)",
-	`K2:meta.compiler.compile/p.(HasConfig)`:                                rSchema + ": the parent of a config-carrying node is a module, container, list, case, rpc io or notification — all HasConfig; reached only when the child states config true",
 	`K2:meta.compiler.compile/x.(Leafable)`:                                 "inside `if x, ok := o.(HasType)`: HasType implementers are Leaf, LeafList, Any, Typedef (all Leafable) and ReplaceDeviate, which compile() is never called with (deviations are applied, not compiled)",
 	`K2:meta.compiler.findTypedef/m.Parent().(Definition)`:                  rSubmodule,
 	`K2:meta.resolver.findGrouping/m.Parent().(Definition)`:                 rSubmodule,
@@ -62,7 +60,6 @@ var c14Triage = map[string]string{
 	`K2:meta.resolver.applyDeviation/target.(Leafable)[ok discarded]`:       rDevGuard,
 	`K2:meta.resolver.applyDeviation/target.Parent().(HasActions)`:          rSchema + ": in the `case *Rpc` branch; an rpc/action's parent is a module, container, list, grouping or augment",
 	`K2:meta.resolver.applyDeviation/target.Parent().(HasNotifications)`:    rSchema + ": in the `case *Notification` branch",
-	`K2:meta.resolver.applyDeviation/target.Parent().(HasDataDefinitions)`:  rSchema + ": Find resolves a deviation path through data definitions only, whose parents hold data definitions",
 	`K2:meta.resolver.applyRefinements/parent.(HasDataDefinitions)`:         "the only caller, expandUses, passes its own HasDataDefinitions parameter",
 	`K2:meta.resolver.expandAugment/parent.(HasDataDefinitions)`:            "callers pass the module (resolver.module) or expandUses' HasDataDefinitions parent",
 	`K2:meta.resolver.cloneDefs/copy[i].(HasWhen)`:                          "every cloneable data definition a grouping can hold (container, list, leaf, leaf-list, choice, anyxml, uses) implements HasWhen",
